@@ -1,9 +1,9 @@
 (* Property C06 — after --override the file passes against the same database and is a fixed
-   point.  Statements only, at the level of one record and one answer (the file level - same
-   requests in the same order on the rerun, included files, the formatting round trip of C05 -
-   is what the correspondence on whole trees checks: update, run against the same scripted
-   database, update again).  [known_class] = [] excludes exactly the known findings D5 / D12. *)
-From SLT Require Import JudgeSpec Update UpdateSpec UpdateProofs.
+   point.  Statements only: at the level of one record and one answer, and (C06_file_converges)
+   at the level of the whole flattened record list of a file with its includes.  The text layer
+   (the formatting round trip, C05) is not part of these statements: what is read back from the
+   written file is [map reread rs'].  [known_class] = [] excludes exactly the known findings D5 / D12. *)
+From SLT Require Import JudgeSpec Runner Update UpdateSpec UpdateProofs UpdateFile1 UpdateFile3 UpdateFile.
 
 (* the rewritten record, as read back from the file, is accepted by the judge on the same
    answer, and rewriting it again leaves what is written unchanged *)
@@ -30,3 +30,52 @@ Theorem C06_untouched_passes :
     apply cfg r a = ONothing \/ run_record re cfg r a = Pass.
 Proof. exact update_none_passes. Qed.
 Print Assumptions C06_untouched_passes.
+
+(* FILE LEVEL.  If the update of the whole record list (main file and includes, flattened with
+   their markers) completes without raising a known-finding flag and no command fails, then
+   running the rewritten list - as re-read from the files - with the library's run_multi from
+   the SAME initial state and the SAME scripted world ends without failure and issues exactly
+   the same connects, requests and sleeps (the same event list [ev]) as the update did; and a
+   second update of the rewritten list issues the same events again, raises no flag, and writes
+   records that re-read as the same records: a fixed point.  Covers skipped records, records
+   after halt, controls, named connections and failed connects, substitution, retry clauses.
+   Premises: the regex oracle satisfies the escape law; the updater's column-type strictness is
+   the runner's (false otherwise: UpdateFile.Cex.strictness_mismatch_rerun_fails); retry clauses
+   allow >= 1 attempt (the parser rejects `retry 0`; false otherwise: Cex.retry_zero_rerun_fails). *)
+Theorem C06_file_converges :
+  forall (re : str -> str -> bool) (sep : str) (strict : bool)
+         (substitute : bool -> list (str * str) -> str -> subres) (sc : script)
+         (main : str) (rs : list record) (st0 : rstate) (w0 : world)
+         (written : list (str * list N)) (ev : list event),
+    escape_law re ->
+    strict = strict_cols (cfg st0) ->
+    Forall retry_ok rs ->
+    update_loop re sep strict substitute sc false rs [mkItem main []] false st0 w0 [] [] []
+      = UOk written ev [] ->
+    Forall cmd_ok (updated_outputs re sep strict substitute sc rs st0 w0) ->
+    let rs' := updated_records re sep strict substitute sc rs st0 w0 in
+    (exists st' w' e,
+        run_multi_e re substitute sc st0 w0 (map reread rs') = (ev, st', w', e) /\
+        (e = Finished \/ e = Halted) /\
+        run_multi re substitute sc st0 w0 (map reread rs') = (ev, st', w', FOk)) /\
+    (exists rs'' outs'',
+        upd re sep strict substitute sc (map reread rs') 1 false st0 w0 = Some (rs'', ev, [], outs'') /\
+        map reread rs'' = map reread rs' /\
+        Forall2 (fun a b => a = b \/ written_expectation_eq a b) rs'' rs' /\
+        Forall cmd_ok outs'').
+Proof. exact update_file_converges. Qed.
+Print Assumptions C06_file_converges.
+
+(* the records [updated_records] are what update_loop writes: its events and flags are those of
+   [upd], and each file's bytes are the trimmed text of that file's records *)
+Theorem C06_written_is_updated_records :
+  forall re sep strict substitute sc main rs st w written ev kn,
+    update_loop re sep strict substitute sc false rs [mkItem main []] false st w [] [] [] = UOk written ev kn ->
+    updated_events re sep strict substitute sc rs st w = ev /\
+    updated_known re sep strict substitute sc rs st w = kn /\
+    exists files,
+      split_files (updated_records re sep strict substitute sc rs st w) [(main, [])] [] = Some files /\
+      Forall2 closed_as files written /\
+      Forall (fun r => marker r = None -> display r <> None) (updated_records re sep strict substitute sc rs st w).
+Proof. exact update_loop_updated. Qed.
+Print Assumptions C06_written_is_updated_records.
